@@ -452,7 +452,8 @@ func h1iOnce(side string, L, B int, segs [][]byte) h1iOut {
 			}
 		}
 	}
-	state1 := h1iSettle(marker, before, func(s string) bool { return s != "busy" && s != "" }, 1500*time.Millisecond)
+	// (a parser that allocates 2 GiB for an announced length keeps serve running for seconds)
+	state1 := h1iSettle(marker, before, func(s string) bool { return s != "busy" && s != "" }, 8*time.Second)
 	if state1 == "gone" && conn.State() != api.ConnClosed {
 		// a serve goroutine that died of a panic is followed by its recover handler on another goroutine
 		time.Sleep(4 * time.Millisecond)
